@@ -25,6 +25,9 @@ REQUIRED = {
     "float": "fundamental type", "double": "fundamental type",
     "const": "cv-qualifier of a parameter type (virtual_<const Animal&> demangles to 'Animal const&')", "volatile": "cv-qualifier",
     "class": "elaborated type specifier", "struct": "elaborated type specifier", "enum": "elaborated type specifier",
+    "true": "boolean literal as non-type template argument (`Flag<true>`)", "false": "boolean literal as non-type template argument",
+    "nullptr": "std::nullptr_t demangles to `decltype(nullptr)`", "decltype": "std::nullptr_t demangles to `decltype(nullptr)`",
+    "noexcept": "exception specification of a function (pointer) type",
 }
 
 
@@ -112,7 +115,7 @@ def check(run):
     # matched. A pattern that can start in the middle of a word declares its tail (`3ul` -> `class ul;`, `_Impl` -> `class Impl;`).
     import re as _re
     rx = [x["s"] for x in astq.walk(f["body"]) if x.get("k") == "StringLiteral" and "s" in x and "\\w" in x["s"]]
-    if len(rx) != 1 or not _re.fullmatch(r"(?:\\w|\[[A-Za-z0-9_\-]+\]|\(\?:|[()*+?:< |])+", rx[0]):
+    if len(rx) != 1 or not _re.fullmatch(r"(?:\\w|\\\(|\\\)|\[[A-Za-z0-9_\-]+\]|\(\?:|[a-z()*+?:< |])+", rx[0]):
         run.broken.append("add_forward_declaration: the name pattern %s is not in the subset this rule interprets (\\w, simple classes, groups, * + ?, ':', '<', ' ')" % rx)
     else:
         ref = _re.compile(r"(\w+(?:::\w+)*)( *<)?")
@@ -139,6 +142,14 @@ def check(run):
             run.instance(r2, "words are matched whole, as qualified identifiers with an optional template bracket in group 2 (pattern interpreted over %d sample texts)" % len(samples), (f["file"], f["line"]), ok=bad is None)
             if bad:
                 run.violation(r2, "generator::add_forward_declaration|name-pattern", "on `%s` the name pattern `%s` %s" % (bad[0], rx[0], bad[1]), (f["file"], f["line"]))
+            # classes of an unnamed namespace: the demangler writes the scope as `(anonymous namespace)::`. A pattern that only knows
+            # identifier characters cuts it into the words `anonymous` and `namespace` (declared as classes: `class namespace;`
+            # is not even C++) and the class itself lands in the global namespace
+            am = [m.group(1) for m in cand.finditer("(anonymous namespace)::Animal&") if m.group(1)]
+            oka = not ({"anonymous", "namespace"} & set(am))
+            run.instance(r2, "the scope `(anonymous namespace)::` of the demangler is not cut into the words `anonymous` and `namespace`", (f["file"], f["line"]), ok=oka)
+            if not oka:
+                run.violation(r2, "generator::add_forward_declaration|unnamed-namespace", "on `(anonymous namespace)::Animal&` the name pattern `%s` yields the words %s: classes of an unnamed namespace produce `class anonymous; class namespace;` and a global `class Animal;`" % (rx[0], am), (f["file"], f["line"]))
             # a pattern that also matches tokens starting with a digit (`3ul`, the literal of a non-type template argument) needs the
             # test on the first character
             okd = (not matches_nonletter) or "non-identifier" in seen
